@@ -567,16 +567,30 @@ class CancelScope(BaseCancelScope):
             del exc_val
 
     @property
+    def _visible_parent_scope(self) -> CancelScope | None:
+        """
+        The parent scope, if a cancellation of it (or of its parents) applies to the
+        tasks in this scope.
+
+        That's not the case if this scope is shielded, or if it has already been exited:
+        an exited scope has been unlinked from its parent, so cancellation can no longer
+        be delivered through it to the tasks it may still contain (tasks started via
+        ``from_thread.run()`` from an abandoned worker thread).
+
+        """
+        if self._shield or self._host_task is None:
+            return None
+
+        return self._parent_scope
+
+    @property
     def _effectively_cancelled(self) -> bool:
         cancel_scope: CancelScope | None = self
         while cancel_scope is not None:
             if cancel_scope._cancel_called:
                 return True
 
-            if cancel_scope.shield:
-                return False
-
-            cancel_scope = cancel_scope._parent_scope
+            cancel_scope = cancel_scope._visible_parent_scope
 
         return False
 
@@ -2622,10 +2636,8 @@ class AsyncIOBackend(AsyncBackend):
         while cancel_scope:
             if cancel_scope.cancel_called:
                 await sleep(0)
-            elif cancel_scope.shield:
-                break
             else:
-                cancel_scope = cancel_scope._parent_scope
+                cancel_scope = cancel_scope._visible_parent_scope
 
     @classmethod
     async def cancel_shielded_checkpoint(cls) -> None:
@@ -2658,10 +2670,8 @@ class AsyncIOBackend(AsyncBackend):
             if cancel_scope._cancel_called:
                 deadline = -math.inf
                 break
-            elif cancel_scope.shield:
-                break
             else:
-                cancel_scope = cancel_scope._parent_scope
+                cancel_scope = cancel_scope._visible_parent_scope
 
         return deadline
 
